@@ -43,6 +43,7 @@ lazy_static! {
   static ref NAME_DAY: Name = Name::from("day");
   static ref NAME_DIVIDEND: Name = Name::from("dividend");
   static ref NAME_DIVISOR: Name = Name::from("divisor");
+  static ref NAME_ELEMENT: Name = Name::from("element");
   static ref NAME_FLAGS: Name = Name::from("flags");
   static ref NAME_FROM: Name = Name::from("from");
   static ref NAME_HOUR: Name = Name::from("hour");
@@ -439,7 +440,8 @@ fn bif_is(_parameters: &NamedParameters) -> Value {
 
 fn bif_list_contains(parameters: &NamedParameters) -> Value {
   if let Some((list_value, _)) = get_param(parameters, &NAME_LIST) {
-    if let Some((match_value, _)) = get_param(parameters, &NAME_MATCH) {
+    // the standard names the second parameter `element`, the name `match` is accepted too
+    if let Some((match_value, _)) = get_param(parameters, &NAME_ELEMENT).or_else(|| get_param(parameters, &NAME_MATCH)) {
       core::list_contains(list_value, match_value)
     } else {
       parameter_not_found!(&NAME_MATCH)
